@@ -157,6 +157,8 @@ pub enum RAct {
     Remove { ent: u64, comp: u8 },
     DespawnEnt { ent: u64 },
     RespawnEnt { slot: u8 },
+    /// The entity is prepared for auto-despawn and the signal is dropped at once: it goes with the next collection.
+    AutoDespawnEnt { ent: u64 },
     ResAccess { ty: u8, how: MutHow, old: u32, new: u32, after: u32, ret_some: bool, triggers: bool },
     ResTrigger { ty: u8 },
     Register { inst: Inst, mode: Mode, once: bool, flavour: Flavour, script: usize, bundle: Vec<RTrig>, form: u8 },
@@ -202,6 +204,9 @@ pub enum Ev {
     PayloadDrop { id: PayId },
     CanaryDrop { inst: Inst },
     Hook(HookEv),
+    /// Written by the `on_remove` component hook of the harness's marker component: the entity is being despawned
+    /// (by whatever means); `had[c]`: it still carried reactive component c.
+    EntGone { ent: u64, had: [bool; NT] },
     Panic { op: usize, msg: String },
 }
 
